@@ -5,6 +5,7 @@
   guarantees, for every trace.
 -/
 import YkProofs.Shim
+import YkProofs.ShimReg
 namespace Yk.C04
 open Yk Yk.ShimView
 
@@ -45,6 +46,19 @@ theorem one_answer_per_submission (v v' : ShimView) (app : String) :
 theorem rejected_leaves_no_trace (v v' : ShimView) (app : String) (h : v.step (.appRejected app) = some v') :
     v'.apps = v.apps ∧ v'.asks = v.asks ∧ v'.bound = v.bound ∧ v'.nodes = v.nodes :=
   shim_rejected_no_trace v v' app h
+
+/-- In every view reached by an accepted trace an application and a node are registered at most once, however often
+    they are submitted, answered, removed and submitted again. -/
+theorem registered_once (trace : List ShimMsg) (v : ShimView) (h : run {} trace = some v) :
+    v.apps.Nodup ∧ v.nodes.Nodup :=
+  run_RInv trace {} v ⟨List.nodup_nil, List.nodup_nil⟩ h
+
+/-- An allocation the core announces on its own (not the echo of one the shim reported) is bound, in the view that
+    accepts it, to an application and a node that are registered there, and its ask is no longer outstanding. -/
+theorem newAlloc_lands_on_registered (v v' : ShimView) (key app node : String)
+    (hr : v.reported.contains (key, node) = false) (hs : v.step (.newAlloc key app node) = some v') :
+    (key, app, node) ∈ v'.bound ∧ app ∈ v'.apps ∧ node ∈ v'.nodes ∧ key ∉ v'.asks.map (·.1) :=
+  newAlloc_lands v v' key app node hr hs
 
 /-- non-vacuity: a well-formed conversation, and three ill-formed ones -/
 example : (run {} [.nodeCreate "n1", .nodeAccepted "n1", .appAdd "a", .appAccepted "a", .ask "k1" "a",
